@@ -28,6 +28,10 @@ CHECKS = {
          "Programs of 1..9 functions with self/ring/back/parallel calls plus extern and indirect calls; for every ordered pair find_call_sequences_to_target must return exactly the call TIDs u->v with R*(source,u) and R*(v,target); the call graph must have one node per function and the exact multiset of direct-call edges. All pairs per program are enumerated.",
          "Trusted: the closure characterisation in checks/c24.rs (from the doc comment of the function). Details: notes/C24.md.",
          "DESIGN.md §3 C24"),
+ "C14": ("generated multi-function programs; reference = independent backward upward-exposed-use dataflow on the normalized IR; inclusion oracle demanded ⊆ reported (proptest tapes, shrinking)",
+         "Generated projects read/write calling-convention parameter registers in every syntactic position (assignments, load/store addresses, store values, conditions, indirect jump/call/return targets, declared parameters of extern calls) behind partial overwrites, loops and calls; compute_function_signatures runs on the pipeline-normalized program; every register the oracle's dataflow finds read-before-written from the entry (paths cut at every call) must be a reported parameter. One-sided by design (the analysis may over-approximate).",
+         "Trusted: the demand dataflow in checks/c14.rs, deliberately an under-approximation of 'can be read' (bare-variable spills and arguments of non-returning calls are not demanded, as documented by the implementation).",
+         "DESIGN.md §3 C14"),
 }
 
 NOT_APPLICABLE = {}
